@@ -45,6 +45,9 @@ def execute(case):
     images = [synth.image_spec("HH", None, L, P, tc), synth.image_spec("HV", None, max(1, L - 1), P + 1, tc), synth.image_spec("VV", None, L + 2, P, tc)]
     spec = synth.product_spec(level, images=images)
     files, _ = synth.build(spec)
+    if case.get("pad"):  # bytes behind the last record of every image (padding to a block size)
+        for n in synth.file_names(spec)["img"]:
+            files[n] = files[n] + b"\x00" * case["pad"]
     fails = []
     env.import_lib()
     env.wipe_cache()
@@ -90,6 +93,9 @@ def plan(tier):
         for L in range(1, 7) if tier == "quick" else range(1, 11):
             for fs in ("mcfs", "local") if tier == "thorough" else ("mcfs",):
                 cases.append({"level": level, "L": L, "P": 3, "fs": fs, "cache_rpc": None})
+            if L in (3, 5):
+                for pad in (1, 512):
+                    cases.append({"level": level, "L": L + 5, "P": 3, "fs": "mcfs", "cache_rpc": None, "pad": pad})
             if L == 6:
                 cases.append({"level": level, "L": 100, "P": 2, "fs": "mcfs", "cache_rpc": None})
                 cases.append({"level": level, "L": 1100 if level == "1.5" else 1030, "P": 2, "fs": "mcfs", "cache_rpc": None})
@@ -103,7 +109,7 @@ def plan(tier):
 def run(res, tier, seed):
     res.rule = (
         "L in 1..6 (thorough: 1..10) x rpc in {1..L+4, 1024, 1e9} x level {1.1 (C*8), 1.5 (IU2)}, three images of different size (shorter and longer than the first) per product;"
-        " plus a 100-line product (reads touching up to 100 chunks) at rpc {1,2,3,7,33,99,100,1024} and a 1100-line (1.5) / 1030-line (1.1) product at rpc {1,7,256,1023,1024,1025,L,4096}; every tree fully loaded and compared leaf by leaf with the rpc=1 tree (all pairs for L<=3); cache legs open the"
+        " plus a 100-line product (reads touching up to 100 chunks) at rpc {1,2,3,7,33,99,100,1024} and a 1100-line (1.5) / 1030-line (1.1) product at rpc {1,7,256,1023,1024,1025,L,4096}; image files with 1 / 512 bytes of padding behind the last record; every tree fully loaded and compared leaf by leaf with the rpc=1 tree (all pairs for L<=3); cache legs open the"
         " same product after create_cache=True at another rpc. Every case compares >= 8 trees, all non-trivial."
     )
     res.assumptions = ["identity of all pairs for L>3 follows from comparison with rpc=1 by transitivity"]
